@@ -49,3 +49,18 @@ Definition repo_run_full (relq : list dfile) (retries : nat) (validf : lfs -> bo
            end
   | (_, None) => None
   end.
+
+(* the results of every round that was performed, in order (what the request log of a run shows) *)
+Fixpoint release_log (tries i : nat) (relq : list dfile) (u : nat -> upstream) (validf : lfs -> bool) (skel : lfs)
+  : list (list file_result) :=
+  match tries with
+  | O => []
+  | S t =>
+      let '(rs, s1) := run_stage false relq (u i) skel in
+      let s2 := drop_unobtained relq rs s1 in
+      if validf s2 then [rs]
+      else match t with
+           | O => [rs]
+           | S _ => rs :: release_log t (S i) relq u validf s2
+           end
+  end.
